@@ -7,6 +7,7 @@ configurations, executor / send latencies (which must not change the result).  O
 RFC 7233 resolver over integer sets; multipart/byteranges bodies are parsed by declared length.
 """
 import asyncio
+import os
 import random
 
 from .. import fs as simfs
@@ -77,9 +78,9 @@ class C02(Prop):
         return plan["range"] is not None and (ctx.notes.get("emissions", 0) >= 3 or bool(ctx.faults))
 
     # -- one request -------------------------------------------------------------
-    def _request(self, plan, ctx, method, headers, rel):
+    def _request(self, plan, ctx, method, headers, rel, rseed=424242):
         req = AbstractRequest(method, "/f", headers=headers, body=b"", http_version=plan.get("http_version", "1.1"))
-        random.seed(424242)   # the multipart boundary must coincide for GET and HEAD
+        random.seed(rseed)    # the multipart boundary must coincide for GET and HEAD
         if plan["iface"] == "wsgi":
             from baize.wsgi import FileResponse
             peer = WsgiPeer(ctx, ctx.sched, req)
@@ -195,6 +196,7 @@ class C02(Prop):
         elif sorted(head["headers"]) != sorted(get["headers"]):
             fail("head-headers-differ|%s" % get["status"], "GET %r HEAD %r" % (sorted(get["headers"]), sorted(head["headers"])))
         self._judge(plan, ctx, fail, get, content, honoured)
+        content = self._boundary_replay(plan, ctx, fail, get, headers, rel, content)
         if self._shared is not None:
             # a later plain request built with the same caller-owned Headers object: nothing of the earlier responses may show
             last = self._request(plan, ctx, "GET", [], rel)
@@ -204,6 +206,58 @@ class C02(Prop):
                 fail("plain-get-after-history-differs", "status %s, %d bytes, content-range %r, content-type %r" % (last["status"], len(last["body"]), dict(last["headers"]).get("content-range"), dict(last["headers"]).get("content-type")))
             if dict(self._shared) != {"x-site": "1"}:
                 fail("caller-owned-headers-object-modified", repr(dict(self._shared)))
+
+    @staticmethod
+    def _boundary_of(resp):
+        ct = dict(resp["headers"]).get("content-type", "")
+        if resp.get("status") != 206 or not ct.lower().startswith("multipart/byteranges"):
+            return None
+        for p in ct.split(";")[1:]:
+            k, _, v = p.strip().partition("=")
+            if k.lower() == "boundary":
+                return v.strip('"') or None
+        return None
+
+    def _boundary_replay(self, plan, ctx, fail, get, headers, rel, content):
+        """History: the client has seen one multipart answer; the file is then replaced (same size, same times) by content that
+        quotes that answer's delimiter inside a requested range, and the same ranges are asked for again.  The framing of the new
+        answer must still be truthful for a client that scans for delimiters: its boundary may not occur in the data it frames."""
+        b1 = self._boundary_of(get)
+        if b1 is None or ctx.sched.draw(3):
+            return content
+        try:
+            parts = rg.parse_byteranges(get["body"], b1)
+        except rg.ByterangesError:
+            return content
+        needle = b"\r\n--" + b1.encode("latin-1") + b"\r\n"
+        room = [(s_, e_) for s_, e_, _t, _h, _d in parts if e_ - s_ + 1 >= len(needle)]
+        if not room:
+            return content
+        ctx.fault("file_replaced_quoting_the_previous_boundary")
+        s_, e_ = room[0]
+        new = bytearray(content)
+        new[s_:s_ + len(needle)] = needle
+        path = self.fs.path(rel)
+        st = os.stat(path)
+        rel2 = "c02/replaced.bin"       # (the files of file_for() are shared by all runs of this worker: the replacement is a private file
+        self.fs.write(rel2, bytes(new), mtime=st.st_mtime, ctime=st.st_ctime)      # with the same size and times, hence the same validators)
+        again = self._request(plan, ctx, "GET", headers, rel2, rseed=99991)
+        if again.get("hang") or again.get("exc"):
+            return content
+        b2 = self._boundary_of(again)
+        if b2 is None:
+            return content
+        try:
+            parts2 = rg.parse_byteranges(again["body"], b2)
+        except rg.ByterangesError as e:
+            fail("206-multipart-body-unparseable", "after the file was replaced: %s" % e)
+            return content
+        mark = b"--" + b2.encode("latin-1")
+        for s2, e2, _t, _h, data in parts2:
+            if mark in data:
+                fail("206-multipart-boundary-occurs-in-part-data", "boundary %r (the previous answer used %r) occurs inside the bytes %d-%d it frames" % (b2, b1, s2, e2))
+                return content
+        return content
 
     def _judge(self, plan, ctx, fail, get, content, honoured):
         size = len(content)
